@@ -97,3 +97,43 @@ def run_static(harness, model, env, cases, wd, tag):
 
 def gen_values(rng, env, i, n):
     return [G.gen_value_d(rng, ("named", i), env, 1.0, 0) for _ in range(n)]
+
+
+def run_static_single(harness, model, env, cases, wd, tag):
+    """like run_static but the implementation runs ALL cases in ONE process, in order (call histories)"""
+    import subprocess
+    envs = G.show_env(env)
+    hl, ml = [], []
+    for c in cases:
+        wn = env[c["w"]]["name"]
+        hl.append(f"srt {wn} {c['val']} {c['sfx']}")
+        ml.append(f"rt (named {c['w']}) {c['val']} {c['sfx']}")
+    path = os.path.join(wd, f"{tag}.impl.cases")
+    C.write_lines(path, hl)
+    impl = C.run_lines(harness, "static", path)
+    mod = []
+    n = len(ml)
+    shards = max(1, min(16, (n + 99) // 100))
+    size = (n + shards - 1) // shards
+    procs = []
+    for i in range(shards):
+        part = ml[i * size:(i + 1) * size]
+        if not part:
+            continue
+        mp = os.path.join(wd, f"{tag}.model.{i}.cases")
+        C.write_lines(mp, [f"E {envs}"] + part)
+        procs.append(subprocess.Popen([model, "codec", mp], stdout=subprocess.PIPE, stderr=subprocess.PIPE, text=True))
+    for p in procs:
+        o, e = p.communicate(timeout=3000)
+        if p.returncode != 0:
+            raise C.Undecided("model codec failed: " + e[-1000:])
+        mod += [l for l in o.splitlines() if l != "env"]
+    norm = []
+    for m in mod:
+        if m.startswith("ok "):
+            enc_part, sep, dec_part = m.partition(" ; ")
+            toks = enc_part.split(" ", 2)
+            norm.append(f"ok {toks[1]}{sep}{dec_part}")
+        else:
+            norm.append(m)
+    return impl, norm, hl
